@@ -1,10 +1,10 @@
 package main
 
 import (
-	"sort"
 	"fmt"
 	"go/token"
 	"go/types"
+	"sort"
 	"strings"
 
 	"golang.org/x/tools/go/ssa"
@@ -296,13 +296,14 @@ func init() {
 
 // scopeOf: which part of the program a function belongs to, by role (not by
 // the file it happens to live in):
-//   parse: everything reachable from Parse / tokenize and the methods of the
-//          Parser, the Lexer and SyntaxError;
-//   eval:  everything reachable from the evaluator, the function caller, their
-//          constructors, the handlers of the function table and the sort adapters;
-//   both:  the exported API (it parses and evaluates) and anything reachable
-//          from neither side;
-//   cli:   cmd/jpgo.
+//
+//	parse: everything reachable from Parse / tokenize and the methods of the
+//	       Parser, the Lexer and SyntaxError;
+//	eval:  everything reachable from the evaluator, the function caller, their
+//	       constructors, the handlers of the function table and the sort adapters;
+//	both:  the exported API (it parses and evaluates) and anything reachable
+//	       from neither side;
+//	cli:   cmd/jpgo.
 func (c *Ctx) scopeOf(fn *ssa.Function) map[string]bool {
 	if fn.Pkg == c.SCLI {
 		return map[string]bool{"cli": true}
@@ -860,146 +861,146 @@ func ruleLatch(c *Ctx) *RuleResult {
 		}
 	}
 	afterSort := func(fn *ssa.Function, call *ssa.Call, key, pos string, isErr bool, lname string, isLatchLoad func(ssa.Value) bool) {
-				// Walk every path from the sort to a return, carrying the set of
-				// values that hold this object's latch (a load of the field, a phi
-				// fed by one on the edge taken). A branch on such a value is the
-				// test; a return reached without one loses the failure.
-				type testEdge struct {
-					blk     *ssa.BasicBlock
-					latched int
-					val     ssa.Value
+		// Walk every path from the sort to a return, carrying the set of
+		// values that hold this object's latch (a load of the field, a phi
+		// fed by one on the edge taken). A branch on such a value is the
+		// test; a return reached without one loses the failure.
+		type testEdge struct {
+			blk     *ssa.BasicBlock
+			latched int
+			val     ssa.Value
+		}
+		var tests []testEdge
+		condOf := func(bb *ssa.BasicBlock, held map[ssa.Value]bool) (ssa.Value, int, bool) {
+			ifi := blockIf(bb)
+			if ifi == nil {
+				return nil, 0, false
+			}
+			cond := ifi.Cond
+			neg := false
+			if u, ok := cond.(*ssa.UnOp); ok && u.Op == token.NOT {
+				cond, neg = u.X, true
+			}
+			if bo, ok := cond.(*ssa.BinOp); ok && isErr && (bo.Op == token.NEQ || bo.Op == token.EQL) && isNilConst(bo.Y) {
+				cond = bo.X
+				if bo.Op == token.EQL {
+					neg = !neg
 				}
-				var tests []testEdge
-				condOf := func(bb *ssa.BasicBlock, held map[ssa.Value]bool) (ssa.Value, int, bool) {
-					ifi := blockIf(bb)
-					if ifi == nil {
-						return nil, 0, false
+			} else if isErr {
+				return nil, 0, false
+			}
+			if !held[cond] {
+				return nil, 0, false
+			}
+			idx := 0
+			if neg {
+				idx = 1
+			}
+			return cond, idx, true
+		}
+		problem := ""
+		memo := map[string]bool{}
+		steps := 0
+		var walk func(bb *ssa.BasicBlock, from *ssa.BasicBlock, start int, held map[ssa.Value]bool)
+		walk = func(bb *ssa.BasicBlock, from *ssa.BasicBlock, start int, held map[ssa.Value]bool) {
+			if problem != "" {
+				return
+			}
+			steps++
+			if steps > 20000 {
+				problem = "too many paths after the sort to follow the failure flag"
+				return
+			}
+			h2 := map[ssa.Value]bool{}
+			for v := range held {
+				h2[v] = true
+			}
+			if from != nil {
+				pi := -1
+				for i, pb := range bb.Preds {
+					if pb == from {
+						pi = i
 					}
-					cond := ifi.Cond
-					neg := false
-					if u, ok := cond.(*ssa.UnOp); ok && u.Op == token.NOT {
-						cond, neg = u.X, true
-					}
-					if bo, ok := cond.(*ssa.BinOp); ok && isErr && (bo.Op == token.NEQ || bo.Op == token.EQL) && isNilConst(bo.Y) {
-						cond = bo.X
-						if bo.Op == token.EQL {
-							neg = !neg
-						}
-					} else if isErr {
-						return nil, 0, false
-					}
-					if !held[cond] {
-						return nil, 0, false
-					}
-					idx := 0
-					if neg {
-						idx = 1
-					}
-					return cond, idx, true
 				}
-				problem := ""
-				memo := map[string]bool{}
-				steps := 0
-				var walk func(bb *ssa.BasicBlock, from *ssa.BasicBlock, start int, held map[ssa.Value]bool)
-				walk = func(bb *ssa.BasicBlock, from *ssa.BasicBlock, start int, held map[ssa.Value]bool) {
-					if problem != "" {
-						return
+				for _, in := range bb.Instrs {
+					ph, ok := in.(*ssa.Phi)
+					if !ok {
+						break
 					}
-					steps++
-					if steps > 20000 {
-						problem = "too many paths after the sort to follow the failure flag"
-						return
+					delete(h2, ph)
+					if pi >= 0 && held[ph.Edges[pi]] {
+						h2[ph] = true
 					}
-					h2 := map[ssa.Value]bool{}
-					for v := range held {
-						h2[v] = true
+				}
+			}
+			for _, in := range bb.Instrs[start:] {
+				if v, ok := in.(ssa.Value); ok && isLatchLoad(v) {
+					h2[v] = true
+				}
+			}
+			var ks []string
+			for v := range h2 {
+				ks = append(ks, v.Name())
+			}
+			sort.Strings(ks)
+			mk := fmt.Sprint(bb.Index, start, ks)
+			if memo[mk] {
+				return
+			}
+			memo[mk] = true
+			if cv, idx, ok := condOf(bb, h2); ok {
+				dup := false
+				for _, t := range tests {
+					if t.blk == bb {
+						dup = true
 					}
-					if from != nil {
-						pi := -1
-						for i, pb := range bb.Preds {
-							if pb == from {
-								pi = i
-							}
-						}
-						for _, in := range bb.Instrs {
-							ph, ok := in.(*ssa.Phi)
-							if !ok {
-								break
-							}
-							delete(h2, ph)
-							if pi >= 0 && held[ph.Edges[pi]] {
-								h2[ph] = true
-							}
-						}
-					}
-					for _, in := range bb.Instrs[start:] {
-						if v, ok := in.(ssa.Value); ok && isLatchLoad(v) {
-							h2[v] = true
-						}
-					}
-					var ks []string
-					for v := range h2 {
-						ks = append(ks, v.Name())
-					}
-					sort.Strings(ks)
-					mk := fmt.Sprint(bb.Index, start, ks)
-					if memo[mk] {
-						return
-					}
-					memo[mk] = true
-					if cv, idx, ok := condOf(bb, h2); ok {
-						dup := false
-						for _, t := range tests {
-							if t.blk == bb {
-								dup = true
-							}
-						}
-						if !dup {
-							tests = append(tests, testEdge{bb, idx, cv})
-						}
-						return
-					}
+				}
+				if !dup {
+					tests = append(tests, testEdge{bb, idx, cv})
+				}
+				return
+			}
+			if ret := blockReturn(bb); ret != nil {
+				problem = "the return at " + c.pos(ret.Pos()) + " is reachable after the sort without testing the failure flag"
+				return
+			}
+			for _, sb := range bb.Succs {
+				walk(sb, bb, 0, h2)
+			}
+		}
+		ci := 0
+		for i, in := range call.Block().Instrs {
+			if in == call {
+				ci = i + 1
+			}
+		}
+		walk(call.Block(), nil, ci, map[ssa.Value]bool{})
+		if problem == "" && len(tests) == 0 {
+			r.viol(key, pos, fname(fn), "the failure flag set by "+lname+" is never tested after the sort: evaluation errors inside the comparison are lost")
+			return
+		}
+		if problem == "" {
+			// latched edge must return a non-nil error on every path
+			errSlot := errIndex(fn.Signature)
+			for _, t := range tests {
+				T := t.blk.Succs[t.latched]
+				for bb := range reachableFrom(T, nil) {
 					if ret := blockReturn(bb); ret != nil {
-						problem = "the return at " + c.pos(ret.Pos()) + " is reachable after the sort without testing the failure flag"
-						return
-					}
-					for _, sb := range bb.Succs {
-						walk(sb, bb, 0, h2)
-					}
-				}
-				ci := 0
-				for i, in := range call.Block().Instrs {
-					if in == call {
-						ci = i + 1
-					}
-				}
-				walk(call.Block(), nil, ci, map[ssa.Value]bool{})
-				if problem == "" && len(tests) == 0 {
-					r.viol(key, pos, fname(fn), "the failure flag set by "+lname+" is never tested after the sort: evaluation errors inside the comparison are lost")
-					return
-				}
-				if problem == "" {
-					// latched edge must return a non-nil error on every path
-					errSlot := errIndex(fn.Signature)
-					for _, t := range tests {
-						T := t.blk.Succs[t.latched]
-						for bb := range reachableFrom(T, nil) {
-							if ret := blockReturn(bb); ret != nil {
-								if errSlot >= 0 && isErr && (retResults(ret)[errSlot] == t.val || isLatchLoad(retResults(ret)[errSlot])) {
-									continue // returns the latched error itself, non-nil on this edge
-								}
-								if errSlot < 0 || !neverNilError(c, retResults(ret)[errSlot]) {
-									problem = "the latched edge reaches the return at " + c.pos(ret.Pos()) + " which does not carry a fresh error"
-								}
-							}
+						if errSlot >= 0 && isErr && (retResults(ret)[errSlot] == t.val || isLatchLoad(retResults(ret)[errSlot])) {
+							continue // returns the latched error itself, non-nil on this edge
+						}
+						if errSlot < 0 || !neverNilError(c, retResults(ret)[errSlot]) {
+							problem = "the latched edge reaches the return at " + c.pos(ret.Pos()) + " which does not carry a fresh error"
 						}
 					}
 				}
-				if problem == "" {
-					r.ok(key, pos, fname(fn), "flag tested right after the sort; latched edge returns a fresh error; no return bypasses the test")
-				} else {
-					r.viol(key, pos, fname(fn), problem)
-				}
+			}
+		}
+		if problem == "" {
+			r.ok(key, pos, fname(fn), "flag tested right after the sort; latched edge returns a fresh error; no return bypasses the test")
+		} else {
+			r.viol(key, pos, fname(fn), problem)
+		}
 	}
 	for _, fn := range allFuncs(c.SLib) {
 		ord := 0
